@@ -20,6 +20,13 @@ Curve2(f, a, b)
   .points()                     ALL affine points by brute force (tiny m only)
   .group_order()                len(points()) + 1
   .point_order(P)
+  .lift_x(x)                    the points with abscissa x
+selftest()                      model-internal group laws on brute-forced tiny curves + NIST B-163
+selftest_vectors(path=None)     vectors/ec2.json ONLY: the ten standard DSTU 4145 curves of
+                                src/crypto/dstu.c (irreducible field polynomial, Hasse bound,
+                                cofactor parity = Tr(A), base point of order n, cofactor*n kills
+                                lifted points)
+`python3 ec2.py --selftest` runs both and prints 'OK n vectors'.
 """
 import sys
 
